@@ -142,7 +142,16 @@ def run_case(case, cid):
             elif case.get("chain") == "s_first":
                 Sub = S.subs({sympy.Symbol("s"): cval}).subs({lam: cval})
             else:
-                Sub = S.subs(subsmap)
+                # every way sympy accepts a substitution: a dict, (old, new) by position, a list / tuple / iterator of pairs
+                form_ = cid % 5
+                if form_ == 1 and len(subsmap) == 1:
+                    Sub = S.subs(lam, cval)
+                elif form_ == 2:
+                    Sub = S.subs(list(subsmap.items()))
+                elif form_ == 3:
+                    Sub = S.subs(tuple(subsmap.items()))
+                else:
+                    Sub = S.subs(subsmap)
             Dn = build(case, cval)
             # subs on a model that holds no symbol (any more) still hands out a NEW model: writing into it afterwards must not
             # show in the model it was called on
